@@ -212,7 +212,7 @@ class Inquiry(SCSICommand):
 
     _ata_identify_gen_conf_bits = {
         "ata_device": [0x80, 1],
-        "respose_incomplete": [0x02, 0],
+        "respose_incomplete": [0x04, 0],
     }
 
     # HACK: we update the baseclass with enums for the subclass, if there is a better way
@@ -399,6 +399,8 @@ class Inquiry(SCSICommand):
         _gc = {}
         convert.decode_bits(_identify[:2], cls._ata_identify_gen_conf_bits, _gc)
         _r["general_config"] = _gc
+        # IDENTIFY DEVICE data is made of little endian words, specific configuration is word 2
+        _r["specific_config"] = _identify[4] | (_identify[5] << 8)
         result.update({"identify": _r})
         return result
 
